@@ -52,7 +52,7 @@ func main() {
 	run.CaseType = "Renewal.case"
 	run.ShardSize = 100
 	run.Rule = "renew: a correct CMS-signed renewal request (fresh keys, chain, CSR, 1-3 TRCs with root rotation) with 0-2 " +
-		"irregularities out of 29 (CSR subject with the ISD-AS attribute twice (same / own+other / other+own) or with unknown attributes, signed by another key / by the CA certificate / naming the CA certificate, two or no signer infos, payload or " +
+		"irregularities out of 30 (CSR subject with the ISD-AS attribute twice (same / own+other / other+own) or with unknown attributes, signed by another key / by the CA certificate / naming the CA certificate, two or no signer infos, payload or " +
 		"signature altered after signing, wrong content type or version, 1 or 3 certificates, CA first, CSR for another " +
 		"ISD-AS / without ISD-AS / with an invalid own signature / garbage, chain expired / foreign root / old root with " +
 		"or without grace period, latest TRC expired or base-only, predecessor expired or missing, truncated DER); issue: " +
@@ -70,7 +70,7 @@ func main() {
 	run.Finish()
 }
 
-const nMut = 29
+const nMut = 30
 
 func corruptTail(b []byte) []byte {
 	out := append([]byte(nil), b...)
@@ -142,6 +142,9 @@ func renewCase(run *vgen.Run, r *vgen.Rand, idx int) {
 		for j := 0; j < nm; j++ {
 			muts[r.Intn(nMut)] = true
 		}
+	}
+	if muts[29] { // chain under the old root, in the grace period, but the predecessor TRC has expired
+		muts[16], muts[19] = true, true
 	}
 	nTRC := r.Range(1, 3)
 	graceState := r.Intn(3) // 0 in grace, 1 grace over, 2 zero grace
